@@ -27,11 +27,12 @@ func init() {
 			"LIKE patterns contain no backslash; non-ASCII characters in data are caseless, so ASCII folding is the case-insensitivity asserted",
 			"numeric literals are rendered without exponent; the reference model (internal/ref) is trusted",
 		},
-		Floor:         featList("op.eq", "op.ne", "op.lt", "op.le", "op.gt", "op.ge", "and", "or", "not", "in", "notin", "in.subquery", "between", "notbetween", "like", "notlike", "isnull", "isnotnull", "istrue", "isfalse", "law.partition", "law.notin", "law.between", "native-int", "in.subquery.correlated", "naming.alias", "naming.alias-unqualified", "naming.table-qualified", "const.spelled", "opt.idiomatic-arrays", "source.dual"),
+		Floor:         featList("op.eq", "op.ne", "op.lt", "op.le", "op.gt", "op.ge", "and", "or", "not", "in", "notin", "in.subquery", "between", "notbetween", "like", "notlike", "isnull", "isnotnull", "istrue", "isfalse", "law.partition", "law.notin", "law.between", "native-int", "in.subquery.correlated", "naming.alias", "naming.alias-unqualified", "naming.table-qualified", "const.spelled", "opt.idiomatic-arrays", "source.dual", "table.long", "reexec.vars", "reexec.document"),
 		MinNontrivial: 50,
 		Phases: []fw.Phase{
 			{Name: "pred", N: func(t fw.Tier) int { return pick(t, 16000, 600000) }, Run: c01Pred},
 			{Name: "laws", N: func(t fw.Tier) int { return pick(t, 6000, 150000) }, Run: c01Laws},
+			{Name: "reexec", N: func(t fw.Tier) int { return pick(t, 1500, 40000) }, Run: c01Reexec},
 		},
 		Witness: sqlWitness,
 	})
@@ -47,8 +48,14 @@ func pick(t fw.Tier, q, th int) int {
 }
 
 func c01Tables(c *fw.Case) (*gen.Table, *gen.Table) {
-	maxRows := pick(c.Tier, 12, 40)
-	t := gen.RandTable(c.R, gen.TableSpec{Name: "t1", MaxRows: maxRows, NumCols: 2, StrCols: 2, BoolCols: 1, NullCols: 2, StrStyle: gen.Hostile})
+	maxRows, minRows := pick(c.Tier, 12, 40), 0
+	if c.Idx%400 == 123 {
+		// a long table: whatever the engine does differently for long inputs
+		// (batches, workers), the rows still come out once and in source order
+		minRows, maxRows = 2050+c.Intn(3000), 6000
+		c.Feature("table.long")
+	}
+	t := gen.RandTable(c.R, gen.TableSpec{Name: "t1", MinRows: minRows, MaxRows: maxRows, NumCols: 2, StrCols: 2, BoolCols: 1, NullCols: 2, StrStyle: gen.Hostile})
 	o := gen.RandTable(c.R, gen.TableSpec{Name: "t2", MaxRows: 6, NumCols: 1, StrCols: 1, StrStyle: gen.Hostile})
 	// let the other table share values with t1 so that IN (subquery) matches
 	for _, row := range o.Rows {
@@ -376,4 +383,83 @@ func c01Dual(c *fw.Case, t *gen.Table, g *gen.PredGen) {
 		return
 	}
 	c.Nontrivial(sql + "|" + val.Canon(doc))
+}
+
+
+// c01Reexec: one Query object kept and executed several times while a variable
+// its predicate reads, or the document itself, changes in between: every
+// execution keeps exactly the rows that satisfy the predicate then.
+func c01Reexec(c *fw.Case) {
+	t, other := c01Tables(c)
+	if len(t.Rows) == 0 || len(t.Pools["n1"]) == 0 {
+		c.Discard("empty table")
+		return
+	}
+	g := &gen.PredGen{R: c.R, T: t, Other: other, MaxDepth: 2}
+	extra, _ := c01Render(c, g.Gen(), "")
+	form := c.Intn(5)
+	var where string
+	switch form {
+	case 0:
+		where = "n1 >= GETVAR('min') AND (" + extra + ")"
+	case 1:
+		where = "n1 IN (SELECT n1 FROM `<-t2` WHERE n1 >= GETVAR('min'))"
+	case 2:
+		where = "n1 NOT IN (SELECT n1 FROM `<-t2` WHERE n1 >= GETVAR('min')) OR (" + extra + ")"
+	case 3:
+		where = "GETVAR('min') <= n1"
+	default:
+		where = "n1 BETWEEN GETVAR('min') AND 1000000 AND s1 != GETVAR('tag')"
+	}
+	sql := "SELECT * FROM t1 WHERE " + where
+	vars := map[string]any{"min": -1e9, "tag": "no such tag"}
+	doc := DocOf(t, other)
+	q, nerr := newSafe(doc, sql, genql.WithVars(vars))
+	if q == nil {
+		c.Discard("query not constructed: " + fmt.Sprint(nerr.Describe()))
+		return
+	}
+	mutate := c.Chance(0.4)
+	if mutate {
+		c.Feature("reexec.document")
+	}
+	c.Feature("reexec.vars")
+	nontrivial := false
+	for i := 0; i < 4; i++ {
+		switch {
+		case i == 0:
+		case mutate && i%2 == 0:
+			// the caller edits its document in place between executions
+			rows := doc["t1"].([]any)
+			r := rows[c.Intn(len(rows))].(map[string]any)
+			r["n1"] = gen.Pick(c.R, t.Pools["n1"])
+			if o2 := doc["t2"].([]any); len(o2) > 0 {
+				o2[c.Intn(len(o2))].(map[string]any)["n1"] = gen.Pick(c.R, t.Pools["n1"])
+			}
+		default:
+			vars["min"] = gen.Pick(c.R, t.Pools["n1"])
+			if c.Chance(0.3) && len(t.Pools["s1"]) > 0 {
+				vars["tag"] = gen.Pick(c.R, t.Pools["s1"])
+			}
+		}
+		got := execBuilt(q)
+		fresh := Run(val.CopyMap(doc), sql, genql.WithVars(map[string]any{"min": vars["min"], "tag": vars["tag"]}))
+		c.Evals(2)
+		if !fresh.OK() {
+			c.Discard("a fresh query fails")
+			return
+		}
+		if !got.OK() || !(len(got.Rows) == 0 && len(fresh.Rows) == 0) && !val.SameSeq(got.Rows, fresh.Rows) {
+			c.Violate("reexec-stale", fmt.Sprintf("execution %d of the same Query (min = %v) kept rids %v, a fresh query keeps %v", i+1, vars["min"], Rids(got.Rows), Rids(fresh.Rows)),
+				map[string]any{"sql": sql, "doc": val.Copy(doc), "execution": i + 1, "vars": val.CopyMap(vars), "observed": got.Describe(), "fresh_query": fresh.Describe()})
+			return
+		}
+		if len(fresh.Rows) > 0 && len(fresh.Rows) < len(t.Rows) {
+			nontrivial = true
+		}
+	}
+	c.Sample(map[string]any{"sql": sql, "document_edited": mutate})
+	if nontrivial {
+		c.Nontrivial(sql + "|" + val.Canon(t.Array()))
+	}
 }
